@@ -19,7 +19,8 @@
 (*                                                                         *)
 (* Presence shapes are pairwise-exhaustive over the pool of optional       *)
 (* top-level keys and candidate content keys of the type: none, every key  *)
-(* alone, every pair, all ("lite" offsets: none, singles, all).            *)
+(* alone, every pair, all but one, all ("lite" offsets: none, singles,     *)
+(* all).                                                                   *)
 (*                                                                         *)
 (* Value classes (realised by the harness):                                *)
 (*   std  the well-typed value the key normally has                        *)
@@ -39,8 +40,7 @@ CONSTANTS Versions,     \* room versions to enumerate
 
 VersionsAll == AllVersions
 Off0 == {0}
-Off03 == {0, 3}
-Off1245 == {1, 2, 4, 5}
+Off12345 == 1..5
 OffAll == 0..5
 OffNone == {}
 
@@ -52,7 +52,10 @@ Types == ProtectedTypes \cup {"other"}
 
 \* --- candidate keys ------------------------------------------------------------------
 TopExtras == {"unsigned", "age_ts", "redacts", "foo"}
-TopOptRaw == (TopKeepOld \ {"type", "content"}) \cup TopExtras
+\* keys that differ from a listed key only in case are not listed: they must go, and must not come back
+\* under the listed spelling
+CaseVariants == {"Origin", "Depth"}
+TopOptRaw == (TopKeepOld \ {"type", "content"}) \cup TopExtras \cup CaseVariants
 TopOptPdu == {"state_key", "prev_state", "origin", "membership"} \cup TopExtras
 
 \* keys a parsed PDU must have
@@ -79,7 +82,7 @@ ConCand(t) == KeepUnion(t) \cup ConExtras(t)
 FreeClasses == <<"imax", "esc", "obj", "null", "imin", "arr">>
 KeyOrder == <<"event_id", "room_id", "sender", "state_key", "hashes", "signatures", "depth",
               "prev_events", "prev_state", "auth_events", "origin", "origin_server_ts", "membership",
-              "unsigned", "age_ts", "redacts", "foo",
+              "unsigned", "age_ts", "redacts", "foo", "Origin", "Depth",
               "join_authorised_via_users_server", NestedKey, "displayname", "creator", "room_version",
               "m.federate", "predecessor", "additional_creators", "join_rule", "allow", "ban", "events",
               "events_default", "kick", "redact", "state_default", "users", "users_default", "invite",
@@ -112,19 +115,20 @@ TpiOf(sh, off) ==
 
 \* --- presence shapes ---------------------------------------------------------------------------
 Pool(t) == ({"t"} \X (IF Family = "raw" THEN TopOptRaw ELSE TopOptPdu)) \cup ({"c"} \X ConCand(t))
-Shapes(P, lite) == {{}, P} \cup {{x} : x \in P} \cup (IF lite THEN {} ELSE {{x, y} : x, y \in P})
+Shapes(P, lite) == {{}, P} \cup {{x} : x \in P}
+                   \cup (IF lite THEN {} ELSE {{x, y} : x, y \in P} \cup {P \ {x} : x \in P})
 
 EventOf(v, t, sh, off, tsh) ==
     LET topopt == {x[2] : x \in {y \in sh : y[1] = "t"}}
         conk == {x[2] : x \in {y \in sh : y[1] = "c"}}
-        skstd == "state_key" \in topopt /\ (KeyIdx["state_key"] + off) % 2 = 0
         \* room versions with domainless room IDs: the create event (state key "") has no room_id
-        roomless == Family = "pdu" /\ DomainlessRoomIDs(v) /\ t = "m.room.create" /\ skstd
+        v12create == Family = "pdu" /\ DomainlessRoomIDs(v) /\ t = "m.room.create"
+        roomless == v12create /\ "state_key" \in topopt
         mand == IF Family = "pdu" THEN PduMandatory(v, roomless) ELSE {"type", "content"}
         topk == mand \cup topopt
         tp == IF NestedKey \in conk THEN TpiOf(tsh, off) ELSE NoTpi
     IN [type |-> t,
-        top |-> [k \in topk |-> TopClass(k, t, off, mand)],
+        top |-> [k \in topk |-> IF k = "state_key" /\ v12create THEN "std" ELSE TopClass(k, t, off, mand)],
         con |-> [k \in conk |-> ConClass(k, off, tp.obj)],
         tpi |-> tp]
 
@@ -193,7 +197,7 @@ PSanity ==
             /\ (e.type = "m.room.create" /\ A = 5 => r1.con = e.con)
             /\ (e.type = "other" => r1.con = EmptyFn)
             /\ ("origin" \in DOMAIN e.top => (("origin" \in DOMAIN r1.top) = (A < 5)))
-            /\ {"unsigned", "age_ts", "redacts", "foo"} \cap DOMAIN r1.top = {}
+            /\ ({"unsigned", "age_ts", "redacts", "foo"} \cup CaseVariants) \cap DOMAIN r1.top = {}
 
 
 Emit ==
